@@ -80,9 +80,9 @@ def renderObjs : Except Err (List Obj) → String
   | .ok os => s!"ok {renderList (os.map renderObj)}"
   | .error e => renderErr (some e)
 
-/-- `a` is a proper prefix of `b` and the next character of `b` sorts below '/'. -/
+/-- `a` is a proper prefix of `b` and the next character of `b` is '/' or sorts below it. -/
 def lowSepPair (a b : Str) : Bool :=
-  a.isPrefixOf b && (match b.drop a.length with | ch :: _ => decide (ch < '/') | [] => false)
+  a.isPrefixOf b && (match b.drop a.length with | ch :: _ => decide (ch < '/') || ch == '/' | [] => false)
 
 /-- Deviation `index-order-separator`: a non-unique index whose stored values contain such a pair. -/
 def lowSepDev (i : Index) (m : Abs) : Bool :=
